@@ -1,9 +1,10 @@
 # C12 - scheduler: never early, in deadline order, cancel hits exactly its target
 import re
-from ..core import norm, relloc, live, calls, evs, Broken, value_origin, Tracer, fmt_trace, rooted, has_back_edge, cond_event, efield, pos, tests
+from ..core import norm, relloc, live, calls, evs, Broken, value_origin, Tracer, fmt_trace, rooted, has_back_edge, cond_event, efield, pos, tests, find_ev, Item, STD_IMMEDIATE
 from .. import locks
 from ..rules import *
 from .tables import GUARDED
+from .C09 import callable_bodies, feasible
 
 EXPLANATION = ('Static analysis of scheduler: the heap of sleepers is mutated only by the heap operations (push_back+push_heap in schedule, pop_heap+pop_back in pop_item) with the one '
                'comparator, so deadline order is maintained by std::push_heap/pop_heap; every removal of an entry in get_expired_lk is justified in the same iteration by a fresh '
@@ -21,21 +22,34 @@ FORBIDDEN_MUT = {'erase', 'insert', 'emplace', 'clear', 'resize', 'swap', 'assig
 
 
 def run(ctx, db, tier):
-    heap_discipline(ctx, db)
-    justified_pop(ctx, db)
-    nonempty(ctx, db)
-    schedule_notifies(ctx, db)
-    no_window(ctx, db)
-    la = locks.check_guarded(ctx, db, 'C12.locks', {S: GUARDED[S]}, ['cocls::scheduler'], per_instance=False, floor=8)
-    locks.check_no_relock(ctx, db, 'C12.no-relock', la, ['cocls::scheduler'], floor=3)
-    cancel(ctx, db)
-    cancel_finds_live(ctx, db)
-    interval_ident(ctx, db)
-    by_value(ctx, db)
-    destructor_joins(ctx, db)
-    sleep_through_heap(ctx, db)
-    sleeper_never_disarmed(ctx, db)
-    interval_owns_params(ctx, db)
+    undecided = []
+
+    def rule(fn, *a, **kw):
+        # a rule that cannot decide (analysis-broken) does not keep the later rules from being evaluated: the first such answer is
+        # re-raised at the end, so the check still exits 2 - but with every violation the other rules found on record
+        try:
+            return fn(*a, **kw)
+        except Broken as ex:
+            undecided.append(ex)
+            return None
+    rule(heap_discipline, ctx, db)
+    rule(justified_pop, ctx, db)
+    rule(nonempty, ctx, db)
+    rule(schedule_notifies, ctx, db)
+    rule(no_window, ctx, db)
+    la = rule(locks.check_guarded, ctx, db, 'C12.locks', {S: GUARDED[S]}, ['cocls::scheduler'], per_instance=False, floor=8)
+    if la is not None:
+        rule(locks.check_no_relock, ctx, db, 'C12.no-relock', la, ['cocls::scheduler'], floor=3)
+    rule(cancel, ctx, db)
+    rule(cancel_finds_live, ctx, db)
+    rule(interval_ident, ctx, db)
+    rule(by_value, ctx, db)
+    rule(destructor_joins, ctx, db)
+    rule(sleep_through_heap, ctx, db)
+    rule(sleeper_never_disarmed, ctx, db)
+    rule(interval_owns_params, ctx, db)
+    if undecided:
+        raise undecided[0]
 
 
 def op(ev):
@@ -150,6 +164,27 @@ def _due_or_cancelled(tr, i):
     return None
 
 
+def _root_return(tr):
+    d0 = min((it.get('depth', 0) for it in tr if it.k not in ('enter', 'leave', 'abort')), default=0)
+    return next((i for i in range(len(tr) - 1, -1, -1) if tr[i].k == 'return' and tr[i].get('depth', 0) == d0), None)
+
+
+def _answer(tr):
+    """the expression the root function answers with on this trace: conditional expressions resolved by the branches taken, and a value
+    that is (a conversion / copy of) what an expanded helper returned followed into that helper"""
+    ri = _root_return(tr)
+    p = ret_expr(tr) or ''
+    if ri is None:
+        return resolve_select(p, tr) or ''
+    for _ in range(4):
+        p = resolve_select(p, tr) or ''
+        q = origin_in_trace(tr, ri, p)[0] or ''
+        if q == p:
+            break
+        p = q
+    return p
+
+
 def justified_pop(ctx, db):
     rid = ctx.rule('C12.never-early', 'PATHS', 'scheduler::get_expired_lk: every removal of the top entry (pop_item) is preceded, since the previous removal, by a branch that established the '
                    'current top is due (tp <= now, or an equivalent comparison shape) or cancelled (its promise is empty): no entry whose time has not come is handed out', floor=1)
@@ -186,7 +221,7 @@ def justified_pop(ctx, db):
         ctx.ob(rid, f, f['key'], bad is None, 'each pop justified by due-or-cancelled' + ('' if not bad else ' -- ' + bad[0]), desc=bad[0] if bad else None, trace=fmt_trace(bad[1]) if bad else None)
         outcomes = set()
         for tr in trs:
-            rp = resolve_select(ret_expr(tr) or '', tr) or ''
+            rp = _answer(tr)
             outcomes.add('next' if '_tp' in rp else ('nothing' if 'max' in rp else 'due'))
         ctx.ob(rid, f, f['key'], outcomes >= {'due', 'next', 'nothing'}, 'get_expired_lk reports either a due promise, the next time point, or "nothing scheduled" (found %s)' % sorted(outcomes), desc='get_expired_lk lost an outcome')
 
@@ -300,6 +335,64 @@ def schedule_notifies(ctx, db):
         ctx.ob(rid, f, f['key'], bad is None, 'decide before insert, notify when earliest' + ('' if not bad else ' -- ' + bad[0]), desc=bad[0] if bad else None, trace=fmt_trace(bad[1]) if bad else None)
 
 
+def _splice_functor_calls(db, T, f, trs, limit=20000):
+    """the path enumerator expands a closure handed to std::visit / find_if / ... where it is invoked; a visitor written as a named functor
+    class (one call operator per alternative) is the same code: every call of such an entry point with a functor object of the library is
+    followed by the paths of its call operators (each operator is one alternative outcome), enumerated with the same expansion filter"""
+    cache = {}
+
+    def bodies_of(it):
+        idx = STD_IMMEDIATE.get(norm(it.get('callee') or ''))
+        args = it.get('args') or []
+        if idx is None or idx >= len(args) or it.get('expanded'):
+            return None
+        a = args[idx]
+        if (a.get('opath') or a.get('path') or '').startswith('lambda@'):
+            return None
+        if '(lambda at ' in (a.get('type') or '') or 'fn:' in (a.get('path') or ''):
+            return None
+        gs = callable_bodies(db, f, a)
+        if not gs:
+            if norm(it.get('callee') or '') == 'std::visit':
+                raise Broken('the visitor handed to std::visit (%s) is not a closure or a functor class whose call operators are known' % (a.get('type') or a.get('path')))
+            return None
+        k = tuple((g['key'], g.get('inst')) for g in gs)
+        if k not in cache:
+            subs = []
+            for g in gs:
+                subs += T.traces(g, 1)
+                if T.truncated:
+                    raise Broken('path bound exceeded in %s' % g['nname'])
+            cache[k] = subs
+        return cache[k]
+    out = []
+    for tr in trs:
+        variants = [[]]
+        for it in tr:
+            subs = bodies_of(it) if it.k == 'call' and it.get('depth', 0) == 0 else None
+            if not subs:
+                for v in variants:
+                    v.append(it)
+                continue
+            nv = []
+            for v in variants:
+                if v and v[-1].k == 'abort':
+                    nv.append(v); continue
+                for sub in subs:
+                    w = v + [Item(it, expanded=True), Item(k='enter', ev=it, depth=0)] + list(sub)
+                    if not (sub and sub[-1].k == 'abort'):
+                        w.append(Item(k='leave', ev=it, ret=None, depth=0))
+                    nv.append(w)
+            variants = nv
+            if len(variants) + len(out) > limit:
+                raise Broken('path bound exceeded while expanding the functor passed to %s' % norm(it.get('callee') or ''))
+        for v in variants:
+            # nothing follows an abort
+            cut = next((i for i, x in enumerate(v) if x.k == 'abort'), None)
+            out.append(v if cut is None else v[:cut + 1])
+    return out
+
+
 def no_window(ctx, db):
     rid = ctx.rule('C12.no-lost-wakeup-window', 'LOCKSET', 'scheduler::worker_coro: from the call that computes the next deadline under the lock (get_expired_lk) to the wait on the condition '
                    'variable, the lock is never released (a schedule() landing in such a window would be noticed only at the old, later deadline); and the wait is a wait_until '
@@ -317,6 +410,7 @@ def no_window(ctx, db):
         trs = T.traces(f)
         if T.truncated:
             raise Broken('path bound exceeded in worker_coro')
+        trs = _splice_functor_calls(db, T, f, trs)
         ctx.paths(rid, len(trs))
         bad = None; nw = 0
         for tr in trs:
@@ -352,10 +446,50 @@ def cancel(ctx, db):
     fns = [f for f in db.fns('cocls::scheduler::cancel') if len(f['params']) == 2]
     if not fns:
         raise Broken('anchor vanished: scheduler::cancel(id, exception)')
-    T = Tracer(db, depth=0)
+    # helpers of the class are expanded (the resolve may sit in a small static member); remove() stays a call: it is the anchor
+    T = Tracer(db, depth=4, inline_filter=lambda c, e, callee: is_helper(db, c, callee) and callee['nname'] != 'cocls::scheduler::remove')
+    T.closures_on_stack = True
     f = fns[0]
-    trs = [t for t in T.traces(f) if live(t)]
+    trs = feasible([t for t in T.traces(f) if live(t)])
+    if T.truncated:
+        raise Broken('path bound exceeded in scheduler::cancel')
     ctx.paths(rid, len(trs))
+    exc_params = {'param:' + p_['name'] for p_ in f['params'] if 'exception_ptr' in (p_.get('type') or '') + (p_.get('ctype') or '')} or {'param:e'}
+
+    def unwrapped(p_):
+        # the exception may be handed on by value: ctor(param:e), move(param:e)
+        p_ = p_ or ''
+        for _ in range(4):
+            m_ = re.fullmatch(r'(?:ctor|move|forward)\((.*)\)', p_)
+            if not m_:
+                break
+            p_ = m_.group(1)
+        return p_
+
+    def reported(tr):
+        """the constant the bool of the returned suspend_point<bool> is built from (followed into an expanded helper that builds it)"""
+        ri = _root_return(tr)
+        for _ in range(4):
+            if ri is None:
+                return None
+            r = tr[ri]
+            if r.get('ret_ev') is None:
+                return r.get('const')
+            e = find_ev(tr, ri, r['ret_ev'], r.get('fn'), r.get('depth', 0))
+            if e is None:
+                return r.get('const')
+            if e.k == 'construct':
+                cs = [a.get('const') for a in e.get('args', []) if (a.get('type') or '') in ('_Bool', 'bool') and a.get('const') is not None]
+                return cs[-1] if cs else None
+            if e.k == 'call' and e.get('callee_key'):
+                # what the expanded helper returned on this path
+                li = next((j for j in range(ri - 1, -1, -1) if tr[j].k == 'leave' and tr[j].get('depth') == r.get('depth', 0) and tr[j].ev.get('id') == e.get('id')), None)
+                if li is None:
+                    return r.get('const')
+                ri = next((j for j in range(li - 1, -1, -1) if tr[j].k == 'return' and tr[j].get('depth') == r.get('depth', 0) + 1), None)
+                continue
+            return r.get('const')
+        return None
     bad = None; ny = nn = 0
     for tr in trs:
         ri = index_of(tr, callee_is('cocls::scheduler::remove'))
@@ -367,19 +501,11 @@ def cancel(ctx, db):
                 ce = cond_event(tr, ri + i)
                 if ce is not None and ce.k == 'call' and norm(ce.get('callee')) in ('cocls::promise::operator bool', 'cocls::promise::operator!'):
                     found = bool(it.val) if norm(ce['callee']).endswith('bool') else (not it.val)
-        res = [c for c in calls(tr) if norm(c.get('callee')) in ('cocls::promise::operator()', 'cocls::promise::set_exception', 'cocls::promise::set_value')]
-        ret = [it for it in tr if it.k == 'return']
-        rv = None
-        if ret:
-            e = f.ev(ret[-1].get('ret_ev')) if ret[-1].get('ret_ev') is not None else None
-            if e is not None and e.k == 'construct':
-                cs = [a.get('const') for a in e.get('args', []) if (a.get('type') or '') in ('_Bool', 'bool') and a.get('const') is not None]
-                rv = cs[-1] if cs else None
-            elif ret[-1].get('const') is not None:
-                rv = ret[-1]['const']
+        res = [c for c in calls(tr) if norm(c.get('callee')) in ('cocls::promise::operator()', 'cocls::promise::set_exception', 'cocls::promise::set_value') and not c.get('expanded')]
+        rv = reported(tr)
         if found is True:
             ny += 1
-            if len(res) != 1 or not any(a.get('path') == 'param:e' for a in res[0].get('args', [])):
+            if len(res) != 1 or not any(unwrapped(a.get('path')) in exc_params for a in res[0].get('args', [])):
                 bad = bad or ('the cancelled sleeper is not completed exactly once with the given exception', tr)
             if rv not in (1, None):
                 bad = bad or ('a successful cancel does not report true', tr)
@@ -397,6 +523,7 @@ def cancel(ctx, db):
     la = locks.LockAnalysis(db, GUARDED)
     held = la.held_map(f)
     lk = [e for e in f.events() if e.k == 'construct' and locks.LOCKT.search(e.get('callee') or '')]
+    lk += [it for tr in trs for it in tr if it.k == 'construct' and it.get('depth', 0) > 0 and locks.LOCKT.search(it.get('callee') or '')]
     ctx.ob(rid, f, f['key'], not lk, 'cancel itself takes no lock: the promise is resolved with no scheduler lock held', desc='cancel resolves under a lock')
     for g in db.need('cocls::scheduler::remove')[:1]:
         hm = la.held_map(g)
@@ -413,77 +540,152 @@ def cancel_finds_live(ctx, db):
                    'an already cancelled entry never shadows a pending sleep with the same identifier; a matched top entry that is removed is answered with only after its promise tested non-empty', floor=2)
     T = htracer(db, extra=lambda caller, ev, callee: callee['nname'] == 'cocls::scheduler::pop_item')
     PB = ('cocls::promise::operator bool', 'cocls::promise::operator!')
-    n = 0
+    IDENT = r'(\.|->)_ident$'
+    n = [0]
+
+    def is_ident_cmp(x):
+        return x.k == 'cmp' and any(s_ and re.search(IDENT, s_) for s_ in (x.get('lhs'), x.get('rhs')))
+
+    def value_names(tr, idx, path):
+        """every name the value `path` goes by on its way back along the trace (locals, results of expanded helpers, the moved-from member)"""
+        names = []; cur = path
+        for _ in range(16):
+            if not cur:
+                break
+            if cur not in names:
+                names.append(cur)
+            nxt, ni = origin_in_trace(tr, idx, cur, maxsteps=1)
+            if nxt == cur and ni == idx:
+                break
+            cur, idx = nxt, ni
+        return names
+
+    def judge(f, tr, i, sites, standalone=False):
+        it = tr[i]
+        side = next((x for x in (it.get('lhs'), it.get('rhs')) if x and re.search(IDENT, x)), None)
+        obj = re.sub(IDENT, '', side)
+        # the evaluation this comparison belongs to.  Inside a search predicate (a closure / functor run by a std algorithm): the predicate's
+        # body.  Anywhere else - the function itself or a helper of the class it was split into -: up to the next identifier comparison / the exit
+        depth = 0; lo = 0
+        for j in range(i - 1, -1, -1):
+            if tr[j].k == 'leave':
+                depth += 1
+            elif tr[j].k == 'enter':
+                if depth == 0:
+                    lo = j; break
+                depth -= 1
+        inner = standalone or (lo > 0 and STD_IMMEDIATE.get(norm(tr[lo].ev.get('callee') or '')) is not None)
+        if not inner:
+            lo = 0
+        depth = 0; hi = len(tr)
+        for j in range(i + 1, len(tr)):
+            if tr[j].k == 'enter':
+                depth += 1
+            elif tr[j].k == 'leave':
+                if depth == 0 and inner and not standalone:
+                    hi = j; break
+                depth -= 1
+            elif not inner and is_ident_cmp(tr[j]):
+                hi = j; break
+        # decided "no match" on this path: nothing matched here (== taken false, != taken true)
+        br = next((b_ for b_ in tr[i + 1:hi] if tests(b_, it)), None)
+        if br is not None and it.get('op') in ('==', '!=') and bool(br.val) != (it['op'] == '=='):
+            return
+        n[0] += 1
+        # only paths that go on to take a promise out of an entry matter (a search that ends without a hit takes nothing)
+        def mentions_p(x):
+            return any(re.search(r'(\.|->)_p\b', t or '') for t in [x.get('path'), x.get('recv')] + [a.get('path') for a in (x.get('args') or [])])
+        if not standalone and not any(mentions_p(x) for x in tr[i + 1:] if x.k in ('call', 'construct', 'return', 'decl', 'read')):
+            return
+        seg = tr[lo:hi]
+        tested = any(c.k == 'call' and norm(c.get('callee') or '') in PB and (c.get('recv') or '').startswith(obj) for c in seg)
+        popped = (not inner) and any(c.k == 'call' and op(c) in ('pop_back', 'pop_heap') for c in tr[i:hi])
+        wiped = any(w.k == 'write' and re.search(IDENT, w.get('path') or '') for w in tr[i:])
+        ok = tested or popped or wiped
+        why = None
+        if ok and not inner and popped and not tested:
+            # the entry leaves the heap: fine - unless the function answers with its promise untested, which ends the search on a cancelled entry
+            ret = next((x for x in tr[i:hi] if x.k == 'return' and not x.get('depth')), None)
+            if ret is not None and ret.get('path'):
+                ri = pos(tr, ret)
+                names = value_names(tr, ri, ret['path'])
+                lv = re.search(r'local:\w+(#\d+)?', ret['path'])
+                derived = any(nm == obj + '._p' or nm.endswith('(' + obj + '._p)') or ('(' + obj + '._p)') in nm for nm in names)
+                if lv or derived:
+                    cands = set(names) | {obj + '._p'} | ({lv.group(0)} if lv else set())
+                    live_tested = False
+                    for j in range(i, ri):
+                        b_ = tr[j]
+                        if b_.k == 'branch':
+                            ce = cond_event(tr, j)
+                            if ce is not None and ce.k == 'call' and norm(ce.get('callee') or '') in PB and (ce.get('recv') or '') in cands:
+                                live_tested = bool(b_.val) == norm(ce['callee']).endswith('bool')
+                    if not live_tested:
+                        ok = False; why = 'scheduler::remove answers with the promise of the matched top entry without testing it: when that entry was cancelled earlier the search ends with an empty answer although a pending sleep with the identifier may follow'
+        key = (it.get('fn'), 0 if standalone else it.get('depth'), it.get('id'))
+        if key not in sites or (sites[key][0] and not ok):
+            sites[key] = (ok, it, tr, why)
+
     for f in db.need('cocls::scheduler::remove')[:1]:
         sites = {}
-        for tr in T.traces(f):
+        preds = {}
+        trs_ = T.traces(f)
+        if T.truncated:
+            raise Broken('path bound exceeded in scheduler::remove')
+        for tr in trs_:
             if not live(tr):
                 continue
             for i, it in enumerate(tr):
-                if it.k != 'cmp':
+                if it.k == 'call' and not it.get('expanded') and STD_IMMEDIATE.get(norm(it.get('callee') or '')) is not None:
+                    # a search predicate written as a named functor class is not expanded by the path enumerator: its call operator is
+                    # judged as an evaluation of its own
+                    ix = STD_IMMEDIATE[norm(it['callee'])]; args = it.get('args') or []
+                    if ix < len(args) and not (args[ix].get('opath') or args[ix].get('path') or '').startswith('lambda@'):
+                        g0 = db.get(it.get('fn')) or f
+                        for g in callable_bodies(db, g0, args[ix]):
+                            preds[(g['key'], g.get('inst'))] = g
+                if is_ident_cmp(it):
+                    judge(f, tr, i, sites)
+        for g in preds.values():
+            for tr in T.traces(g):
+                if not live(tr):
                     continue
-                side = next((x for x in (it.get('lhs'), it.get('rhs')) if x and re.search(r'(\.|->)_ident$', x)), None)
-                if side is None:
-                    continue
-                obj = re.sub(r'(\.|->)_ident$', '', side)
-                # the evaluation this comparison belongs to: the enclosing expanded callee (search predicate) or, at top level, up to the next comparison / the exit
-                depth = 0; lo = 0
-                for j in range(i - 1, -1, -1):
-                    if tr[j].k == 'leave':
-                        depth += 1
-                    elif tr[j].k == 'enter':
-                        if depth == 0:
-                            lo = j; break
-                        depth -= 1
-                depth = 0; hi = len(tr); inner = lo > 0
-                for j in range(i + 1, len(tr)):
-                    if tr[j].k == 'enter':
-                        depth += 1
-                    elif tr[j].k == 'leave':
-                        if depth == 0 and inner:
-                            hi = j; break
-                        depth -= 1
-                    elif not inner and tr[j].k == 'cmp' and any(x and re.search(r'(\.|->)_ident$', x) for x in (tr[j].get('lhs'), tr[j].get('rhs'))):
-                        hi = j; break
-                # decided false on this path: nothing matched here
-                br = next((b for b in tr[i + 1:hi] if tests(b, it)), None)
-                if br is not None and not br.val:
-                    continue
-                n += 1
-                # only paths that go on to take a promise out of an entry matter (a search that ends without a hit takes nothing)
-                def mentions_p(x):
-                    return any(re.search(r'(\.|->)_p\b', t or '') for t in [x.get('path'), x.get('recv')] + [a.get('path') for a in (x.get('args') or [])])
-                if not any(mentions_p(x) for x in tr[i + 1:] if x.k in ('call', 'construct', 'return', 'decl', 'read')):
-                    continue
-                seg = tr[lo:hi]
-                tested = any(c.k == 'call' and norm(c.get('callee') or '') in PB and (c.get('recv') or '').startswith(obj) for c in seg)
-                popped = (not inner) and any(c.k == 'call' and op(c) in ('pop_back', 'pop_heap') for c in tr[i:hi])
-                wiped = any(w.k == 'write' and re.search(r'(\.|->)_ident$', w.get('path') or '') for w in tr[i:])
-                ok = tested or popped or wiped
-                why = None
-                if ok and not inner and popped and not tested:
-                    # the entry leaves the heap: fine - unless the function answers with its promise untested, which ends the search on a cancelled entry
-                    ret = next((x for x in tr[i:hi] if x.k == 'return' and not x.get('depth')), None)
-                    if ret is not None and re.search(r'local:\w+', ret.get('path') or ''):
-                        lv = re.search(r'local:\w+(#\d+)?', ret['path']).group(0)
-                        live_tested = False
-                        for j in range(i, pos(tr, ret)):
-                            b = tr[j]
-                            if b.k == 'branch':
-                                ce = cond_event(tr, j)
-                                if ce is not None and ce.k == 'call' and norm(ce.get('callee') or '') in PB and (ce.get('recv') or '') in (lv, obj + '._p'):
-                                    live_tested = bool(b.val) == norm(ce['callee']).endswith('bool')
-                        if not live_tested:
-                            ok = False; why = 'scheduler::remove answers with the promise of the matched top entry without testing it: when that entry was cancelled earlier the search ends with an empty answer although a pending sleep with the identifier may follow'
-                key = (it.get('fn'), it.get('depth'), it.get('id'))
-                if key not in sites or (sites[key][0] and not ok):
-                    sites[key] = (ok, it, tr, why)
+                for i, it in enumerate(tr):
+                    if is_ident_cmp(it):
+                        judge(g, tr, i, sites, standalone=True)
         for key, (ok, it, tr, why) in sorted(sites.items(), key=lambda kv: str(kv[0])):
             ctx.ob(rid, f, relloc(it.get('loc')) if it.get('loc') else f['key'], ok, 'an entry matched by identifier is removed, or was tested live',
                    desc=None if ok else why or 'scheduler::remove matches an entry by identifier without testing that its promise is still there and leaves it in the heap: an entry cancelled earlier '
                    '(empty promise, same identifier) shadows a pending sleep - cancel reports false and the sleep is never cancelled', trace=fmt_trace(tr) if not ok else None)
-    if n < 2:
+    if n[0] < 2:
         raise Broken('scheduler::remove: the identifier comparisons (top loop and search) were not found')
+
+
+def _member_init(db, g, arg, member):
+    """the expression data member `member` of the functor object `arg` (created by a braced initialiser) is initialised with, None when the
+    initialiser's elements are not part of the facts (the extractor prints a list of several elements as {...})"""
+    p = arg.get('opath') or arg.get('path') or ''
+    m = re.fullmatch(r'(?:ctor\()?\{(.*)\}\)?', p)
+    if not m or '...' in m.group(1):
+        return None
+    body = m.group(1); elems = []; depth = 0; cur = ''
+    for ch in body:
+        if ch in '([{':
+            depth += 1
+        elif ch in ')]}':
+            depth -= 1
+        if ch == ',' and depth == 0:
+            elems.append(cur.strip()); cur = ''
+        else:
+            cur += ch
+    if cur.strip():
+        elems.append(cur.strip())
+    cls = norm(g['nname']).rsplit('::', 1)[0]
+    for c in db.class_insts(cls)[:1]:
+        names = [x['name'] for x in c.get('fields', [])]
+        if member in names and names.index(member) < len(elems):
+            return elems[names.index(member)]
+    return None
 
 
 def interval_ident(ctx, db):
@@ -498,15 +700,34 @@ def interval_ident(ctx, db):
         for e in lf.events():
             if e.k == 'call' and norm(e.get('callee')) == 'cocls::scheduler::sleep_until' and len(e.get('args', [])) > 1:
                 sl = e['args'][1].get('path')
-    cb = None; cb_lock = False
+    cb = None; cb_lock = False; undecided = None
     for lf in lambdas_of(db, 'cocls::scheduler::interval'):
         for e in lf.events():
             if e.k == 'call' and norm(e.get('callee')) == 'cocls::scheduler::cancel':
                 cb = (e.get('args') or [{}])[0].get('path')
                 cb_lock = any(x.k == 'construct' and locks.LOCKT.search(x.get('callee') or '') for x in lf.events())
+    if cb is None:
+        # the stop callback may be an object of a named functor class handed to std::stop_callback: the identifier it cancels is a data member,
+        # whose value is the corresponding element of the braced initialiser the object is created from
+        for e in f.events():
+            if e.k != 'construct' or not norm(e.get('callee') or '').startswith('std::stop_callback::stop_callback'):
+                continue
+            for a in (e.get('args') or [])[1:]:
+                for g in callable_bodies(db, f, a):
+                    for x in g.events():
+                        if x.k == 'call' and norm(x.get('callee')) == 'cocls::scheduler::cancel':
+                            mp = (x.get('args') or [{}])[0].get('path') or ''
+                            m_ = re.fullmatch(r'this->(\w+)', mp)
+                            init = _member_init(db, g, a, m_.group(1)) if m_ else None
+                            if init is None:
+                                undecided = ('scheduler::interval: the stop callback is an object of %s; the identifier it cancels (%s) is set by an initialiser the facts do not carry'
+                                             % (norm(g['nname']).rsplit('::', 1)[0], mp))
+                            cb = init
+                            cb_lock = any(y.k == 'construct' and locks.LOCKT.search(y.get('callee') or '') for y in g.events())
     norm_id = lambda p: re.sub(r'(capture|local):', '', p or '')
     ok = sl is not None and cb is not None and norm_id(sl) == norm_id(cb)
-    ctx.ob(rid, f, f['key'], ok, 'stop callback cancels %s, sleeps are scheduled with %s' % (cb, sl), desc='interval stop callback cancels a different identifier than it sleeps with')
+    if undecided is None:
+        ctx.ob(rid, f, f['key'], ok, 'stop callback cancels %s, sleeps are scheduled with %s' % (cb, sl), desc='interval stop callback cancels a different identifier than it sleeps with')
     ctx.ob(rid, f, f['key'], not cb_lock, 'the stop callback does not hold the scheduler lock when it calls cancel', desc='interval stop callback locks around cancel')
     # "cancel(id) hits exactly its target": the identifier must be unique to this activation of the generator - the address of an object in
     # its own frame (automatic storage), not of a static / namespace-scope object shared by every generator made from this function
@@ -536,6 +757,8 @@ def interval_ident(ctx, db):
     if nsl == 0:
         raise Broken('scheduler::interval schedules no sleep: anchor changed')
     ctx.ob(rid, f, f['key'], bad is None, 'every round tests stop_requested() before it schedules the next sleep', desc='interval schedules a sleep without polling the stop token', trace=fmt_trace(bad) if bad else None)
+    if undecided:
+        raise Broken(undecided)       # the other clauses of the rule were evaluated; which identifier the callback cancels cannot be decided
 
 
 def by_value(ctx, db):
@@ -616,9 +839,24 @@ def sleep_through_heap(ctx, db):
         ctx.paths(rid, len(trs))
         bad = None
         lams = [lf for lf in lambdas_of(db, fname)]
-        sched = {lf['key'] for lf in lams if all(sum(1 for c in calls(t) if norm(c.get('callee')) == 'cocls::scheduler::schedule') == 1 for t in T.traces(lf) if live(t)) and any(live(t) for t in T.traces(lf))}
+
+        def schedules_once(lf):
+            return all(sum(1 for c in calls(t) if norm(c.get('callee')) == 'cocls::scheduler::schedule') == 1 for t in T.traces(lf) if live(t)) and any(live(t) for t in T.traces(lf))
+        sched = {lf['key'] for lf in lams if schedules_once(lf)}
+
+        def functor_made(it):
+            # the future built from an object of a named functor class (the closure written out as a class): its call operator is the closure body
+            if it.k != 'construct' or norm(it.get('callee') or '') != 'cocls::future::future':
+                return False
+            for a in it.get('args') or []:
+                if (a.get('opath') or a.get('path') or '').startswith('lambda@'):
+                    continue
+                gs = callable_bodies(db, f, a)
+                if gs and all(schedules_once(g) for g in gs):
+                    return True
+            return False
         for tr in trs:
-            made = [it for it in tr if it.k == 'lambda' and it.get('fn_key') in sched]
+            made = [it for it in tr if (it.k == 'lambda' and it.get('fn_key') in sched) or functor_made(it)]
             direct = [c for c in calls(tr) if norm(c.get('callee')) in ('cocls::future::set_value', 'cocls::future::set_exception', 'cocls::future::set_not_value')]
             if direct:
                 bad = bad or ('a path answers with an already resolved future (%s): that sleep bypasses the heap and overtakes earlier, overdue sleepers' % norm(direct[0].get('callee')).split('::')[-1], tr)
